@@ -181,6 +181,11 @@ func runC01(c *fw.Ctx, idx int) fw.Result {
 		var stdin []byte
 		if idx%80 == 40 {
 			stdin = []byte(sf.Text) // -s defaults to stdin
+			if idx%160 == 120 {
+				// a named non-regular file (as with a FIFO or process substitution)
+				args = append(args, "-s", "/dev/stdin")
+				res.Count("binary_runs_reading_a_non_regular_file", 1)
+			}
 		} else {
 			args = append(args, "-s", filepath.Join(dir, "in.sam"))
 		}
@@ -198,7 +203,14 @@ func runC01(c *fw.Ctx, idx int) fw.Result {
 			// the output file already exists and holds a longer earlier result
 			os.WriteFile(filepath.Join(dir, "out.fasta"), []byte(staleContent(len(expected)+300)), 0644)
 		}
-		br := fw.RunBin(c.Bin, args, stdin, nil, "", 40*time.Second)
+		var br fw.BinResult
+		if stdin != nil && idx%160 == 40 {
+			// `sam toMultiAlign < in.sam`: standard input is a regular file
+			br = fw.RunBinStdinFile(c.Bin, args, filepath.Join(dir, "in.sam"), nil, "", 40*time.Second)
+			res.Count("binary_runs_with_stdin_redirected_from_a_file", 1)
+		} else {
+			br = fw.RunBin(c.Bin, args, stdin, nil, "", 40*time.Second)
+		}
 		res.Evals++
 		res.Count("binary_runs", 1)
 		ob, _ := os.ReadFile(filepath.Join(dir, "out.fasta"))
